@@ -81,8 +81,11 @@ def _char_guard():
 
 def _lit_copy():
     m = astlib.module("klongpy/parser.py")
-    cl = astlib.module_assign(m, "copy_lambda")
-    if ast.unparse(cl) != "KGLambda(lambda x: copy.deepcopy(x))":
+    cl = ast.unparse(astlib.module_assign(m, "copy_lambda"))
+    if cl == "KGLambda(lambda x: _copy_literal(x))":
+        if [ast.unparse(s_) for s_ in astlib.body_no_doc(astlib.find_func(m, "_copy_literal"))] != _COPY_LITERAL:
+            return False
+    elif cl != "KGLambda(lambda x: copy.deepcopy(x))":
         return False
     l2d = astlib.find_func(m, "list_to_dict")
     if _ret_src(l2d) != "{x[0]: x[1] for x in a}":
@@ -94,6 +97,20 @@ def _lit_copy():
             hits.append([ast.unparse(s) for s in n.body])
     want = ["i, d = read_list(t, '}', i=i + 2, module=module)", "d = list_to_dict(d)", "return (i, KGCall(copy_lambda, args=d, arity=0))"]
     return len(hits) == 1 and hits[0] == want
+
+
+_COPY_LITERAL = ["if isinstance(x, KGCall) and x.a is copy_lambda:\n    return _copy_literal(x.args)",
+                 "if isinstance(x, dict):\n    return {k: _copy_literal(v) for k, v in x.items()}",
+                 "if isinstance(x, list):\n    return [_copy_literal(v) for v in x]", "return copy.deepcopy(x)"]
+
+
+def _lit_nested():
+    m = astlib.module("klongpy/parser.py")
+    cl = ast.unparse(astlib.module_assign(m, "copy_lambda"))
+    if cl == "KGLambda(lambda x: copy.deepcopy(x))":
+        return False
+    return cl == "KGLambda(lambda x: _copy_literal(x))" and \
+        [ast.unparse(s_) for s_ in astlib.body_no_doc(astlib.find_func(m, "_copy_literal"))] == _COPY_LITERAL
 
 
 def _branch(fn, test_src):
@@ -136,7 +153,7 @@ def _ops_shape():
 def generate():
     out = ["From Coq Require Import Bool."]
     for name, fn in (("kgsym_eq_guard", _sym_guard), ("kgchar_eq_guard", _char_guard),
-                     ("literal_deepcopy", _lit_copy), ("dict_ops_shape_ok", _ops_shape)):
+                     ("literal_deepcopy", _lit_copy), ("dict_ops_shape_ok", _ops_shape), ("literal_nested_built", _lit_nested)):
         try:
             v, why = bool(fn()), None
         except (ShapeError, OSError, SyntaxError, IndexError) as e:
@@ -162,16 +179,34 @@ class Refs:
 
     def __init__(self):
         self.objs = []
+        self.nans = []          # NaN float objects met as dictionary keys: (object, id); Python finds them by identity only
+        self.next_nan = 0
+
+    def register_nan(self, obj, oid):
+        self.nans.append((obj, oid))
+
+    def nan_index(self, obj):
+        for o, i in self.nans:
+            if o is obj:
+                return i
+        self.nans.append((obj, self.next_nan))
+        self.next_nan += 1
+        return self.next_nan - 1
 
     def index(self, d):
         for i, o in enumerate(self.objs):
             if o is d:
                 return i
+        # dictionaries held as payloads (directly, or one list deep) are numbered first: a literal builds its nested literals first
+        for v in d.values():
+            for w in ([v] + (list(v) if isinstance(v, (list, tuple)) else [])):
+                if isinstance(w, dict) and not any(w is o for o in self.objs):
+                    self.index(w)
         self.objs.append(d)
         return len(self.objs) - 1
 
 
-def canon(v, refs):
+def canon(v, refs, key=False):
     import numpy as np
     from klongpy.core import KGSym, KGFn, KGLambda, KLONG_UNDEFINED
     if v is KLONG_UNDEFINED:
@@ -181,8 +216,10 @@ def canon(v, refs):
     if isinstance(v, (bool, np.bool_, int, np.integer)):
         return ["i", int(v)]
     if isinstance(v, (float, np.floating)):
-        if v != v or v in (float("inf"), float("-inf")):
-            return ["other", "nonfinite"]
+        if v != v:
+            return ["nan", refs.nan_index(v) if key else 0]
+        if v in (float("inf"), float("-inf")):
+            return ["inf", 1 if v < 0 else 0]
         m, e = dyadic(v)
         return ["r", m, e]
     if isinstance(v, KGSym):
@@ -197,6 +234,9 @@ def canon(v, refs):
         return ["l"] + [canon(x, refs) for x in v]
     if isinstance(v, (list, tuple)):
         return ["l"] + [canon(x, refs) for x in v]
+    if type(v).__name__ == "KGCall" and isinstance(getattr(v, "args", None), dict) and type(v.a).__name__ == "KGLambda":
+        # an unevaluated dictionary constructor (a nested literal the copy did not build)
+        return ["dlit"] + [["l", canon(a, refs), canon(b, refs)] for a, b in v.args.items()]
     if isinstance(v, (KGFn, KGLambda)) or callable(v):
         return ["f", -1]
     return ["other", type(v).__name__]
@@ -210,7 +250,13 @@ def lit_text(l, top=True):
         return "(%s)" % s if (top and l[1] < 0) else s
     if t == "r":
         s = repr(float(l[1]))
-        return "(%s)" % s if (top and l[1] < 0) else s
+        return "(%s)" % s if (top and s.startswith("-")) else s
+    if t == "inf":
+        return ("(-1.0e400)" if top else "-1.0e400") if l[1] else "1.0e400"
+    if t == "u":
+        if not top:
+            raise ValueError("no literal form inside a list")
+        return "(1%0)"
     if t == "c":
         return "0c" + l[1]
     if t == "s":
@@ -219,6 +265,8 @@ def lit_text(l, top=True):
         return ":" + l[1]
     if t == "l":
         return "[" + " ".join(lit_text(x, False) for x in l[1]) + "]"
+    if t == "d":
+        return ":{" + " ".join("[%s %s]" % (lit_text(a, False), lit_text(b, False)) for a, b in l[1]) + "}"
     raise ValueError(l)
 
 
@@ -229,12 +277,18 @@ def lit_raw(l):
         return ["i", l[1]]
     if t == "r":
         return ["r"] + list(dyadic(l[1]))
+    if t == "inf":
+        return ["inf", 1 if l[1] else 0]
+    if t == "u":
+        return ["u"]
     if t == "c":
         return ["c", ord(l[1])]
     if t == "s":
         return ["s"] + [ord(c) for c in l[1]]
     if t == "y":
         return ["y"] + [ord(c) for c in l[1]]
+    if t == "d":
+        return ["dlit"] + [["l", lit_raw(a), lit_raw(b)] for a, b in l[1]]
     return ["l"] + [lit_raw(x) for x in l[1]]
 
 
@@ -266,10 +320,16 @@ def normkey(c):
         return ("y", tuple(c[1:]))
     if t == "u":
         return ("u",)
+    if t == "inf":
+        return ("inf", c[1])
+    if t == "nan":
+        return ("nan",)          # the Klong-level reading: a program cannot tell one NaN from another
     return None
 
 
 def numval(c):
+    if c[0] == "inf":
+        return ("inf", c[1])
     if c[0] == "i":
         return Fraction(c[1])
     if c[0] == "r":
@@ -281,10 +341,16 @@ def same_mod_homog(a, b):
     """a == b, or both numbers of the same value (a tuple [k v] of an int and a real is a list of reals)"""
     if a == b:
         return True
-    return numval(a) is not None and numval(a) == numval(b)
+    if numval(a) is None or numval(b) is None:
+        return False
+    if numval(a) == numval(b):
+        return True
+    # an integer beyond 2^53 next to a real is rounded to binary64 by the tuple
+    return isinstance(numval(a), Fraction) and isinstance(numval(b), Fraction) and float(numval(a)) == float(numval(b))
 
 
 KEYS = [("i", 0), ("i", 1), ("i", 2), ("i", -3), ("i", 7), ("r", 1.0), ("r", 2.5), ("r", 0.5), ("r", -3.0), ("r", 2.0),
+        ("r", -0.0), ("r", 0.0), ("inf", False), ("inf", True), ("u",), ("i", 2 ** 53 + 1), ("r", float(2 ** 53)), ("i", 2 ** 60 + 3),
         ("c", "a"), ("c", "b"), ("c", "1"), ("s", "a"), ("s", "b"), ("s", "ab"), ("s", ""), ("s", "1"),
         ("y", "a"), ("y", "b"), ("y", "ab")]
 BADKEYS = [("l", [("i", 1), ("i", 2)]), ("l", []), ("l", [("s", "a")])]
@@ -294,6 +360,18 @@ VALUES = KEYS + [("l", [("i", 1), ("i", 2)]), ("l", [("r", 1.5), ("r", 2.5)]), (
 
 
 # ------------------------------------------------------------------------------------------------ sequences
+def litable(l):
+    """has a literal form usable inside [...] and :{...}"""
+    return l[0] != "u" and (l[0] != "l" or all(litable(x) for x in l[1]))
+
+
+def pair_text(k, v):
+    """Klong text of the tuple [k v]: a list literal when both have a literal form, else (k),,v"""
+    if litable(k) and litable(v):
+        return "[%s %s]" % (lit_text(k, False), lit_text(v, False))
+    return "(%s),,%s" % (lit_text(k), lit_text(v))
+
+
 class Gen:
     """Generates one operation sequence together with what the property prescribes (Python-dict oracle)."""
 
@@ -321,19 +399,44 @@ class Gen:
         n = rng.choice([0, 1, 1, 2, 2, 3])
         out = []
         for _ in range(n):
-            k = rng.choice(KEYS) if rng.random() < 0.93 else rng.choice(BADKEYS)
-            out.append(("l", [k, rng.choice(VALUES)]))
+            k = rng.choice([x for x in KEYS if litable(x)]) if rng.random() < 0.93 else rng.choice(BADKEYS)
+            if rng.random() < 0.15:
+                inner = [(rng.choice([x for x in KEYS if litable(x)]), rng.choice([x for x in VALUES if litable(x)])) for _ in range(rng.randint(0, 2))]
+                out.append(("l", [k, ("d", inner)]))
+            else:
+                out.append(("l", [k, rng.choice([x for x in VALUES if litable(x)])]))
+        if any(e[1][1][0] == "d" for e in out):
+            # a literal with a nested literal and a repeated key is outside the model (list_to_dict drops the overwritten
+            # payload at parse time, so which nested literals are ever built depends on the key classes)
+            seen, uniq = set(), []
+            for e in out:
+                nk = normkey(lit_raw(e[1][0]))
+                if nk is None or nk not in seen:
+                    uniq.append(e)
+                    seen.add(nk)
+            out = uniq
         return out
 
     def new_obj(self, elems):
         """oracle for list_to_dict; None when a key is not hashable (the literal does not parse)"""
+        # does it parse at all (keys of the literal and of the literals nested in it)?
+        for e in elems:
+            if normkey(lit_raw(e[1][0])) is None:
+                return None
+            if e[1][1][0] == "d" and any(normkey(lit_raw(a)) is None for a, _ in e[1][1][1]):
+                return None
         d = {}
         for e in elems:
-            k, v = lit_raw(e[1][0]), lit_raw(e[1][1])
-            nk = normkey(k)
-            if nk is None:
-                return None
-            d[nk] = v
+            k = lit_raw(e[1][0])
+            if e[1][1][0] == "d":
+                inner = {}
+                for a, b in e[1][1][1]:
+                    inner[normkey(lit_raw(a))] = lit_raw(b)
+                self.objs.append(inner)           # a nested literal is a dictionary of its own, built first
+                v = ["ref", len(self.objs) - 1]
+            else:
+                v = lit_raw(e[1][1])
+            d[normkey(k)] = v
         self.objs.append(d)
         return len(self.objs) - 1
 
@@ -350,7 +453,7 @@ class Gen:
             kind = rng.choice(["lit", "lit", "deffn"] if not self.fns else ["lit", "call"])
         else:
             kind = rng.choice(["lit", "deffn", "call", "alias", "joinl", "joinl", "joinl", "joinr", "joinr", "find", "find", "find",
-                               "at", "drop", "drop", "size", "each", "joinx", "findx"])
+                               "at", "drop", "drop", "size", "each", "joinx", "findx", "eachdo"])
         if kind == "call" and not self.fns:
             kind = "deffn"
         if kind == "lit":
@@ -403,7 +506,9 @@ class Gen:
             else:
                 k = self.key(d) if rng.random() < 0.93 else rng.choice(BADKEYS)
                 v = rng.choice(VALUES)
-                ptxt = "[%s %s]" % (lit_text(k, False), lit_text(v, False))
+                if not litable(k) and k in BADKEYS:
+                    return
+                ptxt = pair_text(k, v)
                 pc = lit_eval(ptxt)
                 if pc[0] != "l" or len(pc) != 3:
                     return
@@ -473,7 +578,7 @@ class Gen:
                 self.emit("d%d@%s" % (n, lit_text(k)), ["at", ["var", n], ["lit", kc]], exp, kind)
             else:
                 # a list of keys: only when every stored payload asked for is a scalar (array assembly is C01's subject)
-                ks = [self.key(d, hit=0.9) for _ in range(rng.randint(0, 3))]
+                ks = [k_ for k_ in (self.key(d, hit=0.9) for _ in range(rng.randint(0, 3))) if litable(k_)]
                 ks = [k for k in ks if k[0] in ("i", "r")] if rng.random() < 0.5 else ks
                 ltxt = "[" + " ".join(lit_text(k, False) for k in ks) + "]"
                 kc = lit_eval(ltxt)
@@ -494,7 +599,7 @@ class Gen:
             kc = lit_eval(lit_text(k))
             if self.objs[d] is not None:
                 self.objs[d].pop(normkey(kc), None)
-            self.emit("(%s)_d%d" % (lit_text(k, False), n), ["drop", ["lit", kc], ["var", n]], ("val", ["ref", d]), kind)
+            self.emit("(%s)_d%d" % (lit_text(k, litable(k) is False), n), ["drop", ["lit", kc], ["var", n]], ("val", ["ref", d]), kind)
         elif kind == "size":
             n = rng.choice(self.names())
             d = self.env[n]
@@ -505,6 +610,40 @@ class Gen:
             d = self.env[n]
             exp = ("visits", [(nk, v) for nk, v in self.objs[d].items()]) if self.objs[d] is not None else None
             self.emit("lg'd%d" % n, ["each", ["var", n]], exp, kind)
+        elif kind == "eachdo":
+            # f'd where f also performs a dictionary operation at every visit (often on d itself)
+            n = rng.choice(self.names())
+            d = self.env[n]
+            m = n if rng.random() < 0.7 else rng.choice(self.names())
+            dm = self.env[m]
+            what = rng.choice(["joinl", "joinl", "joinr", "drop", "find", "size"])
+            exp = None
+            if what in ("joinl", "joinr"):
+                k = self.key(dm, hit=0.5)
+                v = rng.choice(VALUES)
+                ptxt = pair_text(k, v)
+                pc = lit_eval(ptxt)
+                if pc[0] != "l" or len(pc) != 3:
+                    return
+                itext, imop = ("d%d,%s" % (m, ptxt), ["joinl", ["var", m], ["lit", pc]]) if what == "joinl" else \
+                              ("(%s),d%d" % (ptxt, m), ["joinr", ["lit", pc], ["var", m]])
+                self.objs[dm] = None
+                self.objs[d] = None
+            elif what == "drop":
+                k = self.key(dm, hit=0.6)
+                itext, imop = "(%s)_d%d" % (lit_text(k, litable(k) is False), m), ["drop", ["lit", lit_eval(lit_text(k))], ["var", m]]
+                self.objs[dm] = None
+                self.objs[d] = None
+            elif what == "find":
+                k = self.key(dm)
+                itext, imop = "d%d?%s" % (m, lit_text(k)), ["find", ["var", m], ["lit", lit_eval(lit_text(k))]]
+                exp = ("visits", [(nk, v) for nk, v in self.objs[d].items()]) if self.objs[d] is not None else None
+            else:
+                itext, imop = "#d%d" % m, ["size", ["var", m]]
+                exp = ("visits", [(nk, v) for nk, v in self.objs[d].items()]) if self.objs[d] is not None else None
+            self.emit("lgdo'd%d   :\"where lgdo also runs  %s\"" % (n, itext), ["eachdo", ["var", n], imop], exp, kind)
+            self.ops[-1]["run"] = "lgdo'd%d" % n
+            self.ops[-1]["inner"] = itext
 
     def sequence(self):
         n = self.rng.randint(max(2, self.maxlen - 4), self.maxlen)
@@ -614,13 +753,21 @@ def run_impl(ops):
         log.append(x)
         return 0
     k["lg"] = lg
+    inner = [None]
+
+    def lgdo(klong, x):
+        log.append(x)
+        klong(inner[0])
+        return 0
+    k["lgdo"] = lgdo
     refs = Refs()
     steps = []
     for op in ops:
         del log[:]
+        inner[0] = op.get("inner")
         try:
-            r = k(op["text"])
-            if op["kind"] == "each":
+            r = k(op.get("run", op["text"]))
+            if op["kind"] in ("each", "eachdo"):
                 res = ["visits"] + [canon(x, refs) for x in log]
             elif op["kind"] == "deffn":
                 c = canon(r, refs)
@@ -628,7 +775,7 @@ def run_impl(ops):
             else:
                 res = ["val", canon(r, refs)]
         except Exception as e:  # noqa
-            res = ["err"]
+            res = ["err"] if op["kind"] != "eachdo" else ["visitserr"] + [canon(x, refs) for x in log]
             op["impl_exc"] = type(e).__name__
         heap = []
         i = 0
@@ -640,13 +787,23 @@ def run_impl(ops):
 
 
 def written_ok(k, refs):
-    """writer.py: a dictionary is written as :{[k v] ...} with every binding exactly once, in its own order"""
+    """writer.py: a dictionary is written as :{[k v] ...} with every binding exactly once, in its own order, payload
+    dictionaries written the same way in place (cyclic ones are skipped: the writer recurses without end on them)"""
     from klongpy.core import kg_write
+
+    def cyclic(d, seen=()):
+        if any(d is s_ for s_ in seen):
+            return True
+        return any(isinstance(v, dict) and cyclic(v, seen + (d,)) for v in d.values())
+
+    def expected(d):
+        return ":{" + " ".join("[" + kg_write(a, k._backend) + " " + (expected(b) if isinstance(b, dict) else kg_write(b, k._backend)) + "]"
+                               for a, b in d.items()) + "}"
     for d in refs.objs:
         try:
-            if any(isinstance(v, dict) for v in d.values()):
+            if cyclic(d):
                 continue
-            want = ":{" + " ".join("[" + kg_write(a, k._backend) + " " + kg_write(b, k._backend) + "]" for a, b in d.items()) + "}"
+            want = expected(d)
             if kg_write(d, k._backend) != want:
                 return False, (kg_write(d, k._backend), want)
         except Exception as e:  # noqa
@@ -673,7 +830,9 @@ def prop_ok(expect, res):
                 return False
             hit = None
             for j, (nk, v) in enumerate(left):
-                if normkey(x[1]) == nk and same_mod_homog(x[2], v):
+                vk = normkey(x[1])
+                same_key = vk == nk or (vk is not None and vk[0] == "n" and nk[0] == "n" and float(vk[1]) == float(nk[1]))
+                if same_key and same_mod_homog(x[2], v):
                     hit = j
                     break
             if hit is None:
@@ -723,6 +882,78 @@ def sweep(chk, seqs, tag):
     return bad_prop, bad_corr
 
 
+def erase_nan(x, keep_keys=False):
+    """forget NaN object ids everywhere except (keep_keys) in the key position of a dumped dictionary entry"""
+    if isinstance(x, list):
+        if x and x[0] == "nan":
+            return ["nan", 0]
+        if keep_keys and x and x[0] == "d":
+            return ["d"] + [[e[0] if e[0][:1] == ["nan"] else erase_nan(e[0]), erase_nan(e[1])] for e in x[1:]]
+        return [erase_nan(e, keep_keys) for e in x]
+    return x
+
+
+def nan_check(chk):
+    """NaN keys: Python finds a NaN key by object identity only.  Model (VNan oid) vs implementation exactly; the Klong-level
+    reading of the property (a program cannot tell NaNs apart) is the KNOWN FINDING C10-nan-key."""
+    from klongpy import KlongInterpreter
+    k = KlongInterpreter()
+    log = []
+    k["lg"] = lambda x: (log.append(x), 0)[1]
+    k("nn::1.0e400-1.0e400")
+    refs = Refs()
+    refs.register_nan(k("nn"), 500)
+    NN, EX = "nn", "(1.0e400-1.0e400)"
+    one, two = ["r", 1, 0], ["r", 1, 1]
+    S, T = ["s", 115], ["s", 116]
+    # (statement, model op, what the Klong-level reading prescribes or None)
+    script = [
+        ("d0:::{}", ["olit", 0, 0, []], None),
+        ("d0,%s,,1" % NN, ["joinl", ["var", 0], ["lit", ["l", ["nan", 0], one]]], None),
+        ("d0?%s" % NN, ["find", ["var", 0], ["lit", ["nan", 500]]], ["val", one]),
+        ("d0,%s,,2" % NN, ["joinl", ["var", 0], ["lit", ["l", ["nan", 1], two]]], None),
+        ("#d0", ["size", ["var", 0]], ["val", ["i", 1]]),
+        ('d0,%s,,"s"' % NN, ["joinl", ["var", 0], ["lit", ["l", ["nan", 500], S]]], None),
+        ("d0?%s" % NN, ["find", ["var", 0], ["lit", ["nan", 500]]], ["val", S]),
+        ("#d0", ["size", ["var", 0]], ["val", ["i", 1]]),
+        ("(%s)_d0" % NN, ["drop", ["lit", ["nan", 500]], ["var", 0]], None),
+        ("#d0", ["size", ["var", 0]], ["val", ["i", 0]]),
+        ("lg'd0", ["each", ["var", 0]], None),
+        ("d0?%s" % EX, ["find", ["var", 0], ["lit", ["nan", 501]]], None),
+        ('(%s,,"t"),d0' % EX, ["joinr", ["lit", ["l", ["nan", 2], T]], ["var", 0]], None),
+        ("d0?%s" % EX, ["find", ["var", 0], ["lit", ["nan", 502]]], ["val", T]),
+        ("#d0", ["size", ["var", 0]], ["val", ["i", 1]]),
+    ]
+    impl = []
+    for text, mop, want in script:
+        del log[:]
+        try:
+            r = k(text)
+            res = ["visits"] + [canon(x, refs) for x in log] if text.startswith("lg'") else ["val", canon(r, refs)]
+        except Exception:  # noqa
+            res = ["err"]
+        heap = [["d"] + [[canon(a, refs, key=True), canon(b, refs)] for a, b in o.items()] for o in refs.objs]
+        impl.append((res, heap))
+    mo = chk.run_model([sx(["run"] + [m for _, m, _ in script])])[0]
+    if mo[0] != "ok":
+        raise RuntimeError("model rejected the NaN script: %r" % (mo,))
+    fails = []
+    for i, ((text, mop, want), (res, heap), ms) in enumerate(zip(script, impl, mo[1:])):
+        chk.count("evaluations")
+        chk.count("nan_steps")
+        mres, mheap = erase_nan(ms[1]), erase_nan(ms[2][1:], keep_keys=True)
+        if res != mres or heap != mheap:
+            chk.violation("NaN keys: `%s` (step %d of the replayed script) gives %s with dictionaries %s; the model, which finds a NaN key by object identity only, gives %s / %s"
+                          % (text, i, sx(res), sx(heap), sx(mres), sx(mheap)),
+                          {"kind": "nan-correspondence", "sequence": [t for t, _, _ in script][:i + 1], "failing_step": i})
+            return
+        if want is not None and res != want:
+            fails.append("`%s` gives %s, prescribed %s" % (text, sx(res), sx(want)))
+    if fails:
+        chk.finding("C10-nan-key", "NaN as a key: " + "; ".join(fails[:3]),
+                    {"kind": "nan-key", "sequence": [t for t, _, _ in script], "failures": fails})
+
+
 def make_sequences(seed, count, maxlen):
     rng = random.Random(seed)
     return [Gen(rng, maxlen).sequence() for _ in range(count)]
@@ -740,6 +971,7 @@ def run(tier, replay=None):
         proof["broken"] = hits[0]
     count, maxlen = (1500, 8) if tier == "quick" else (12000, 12)
     seqs = scripted() + make_sequences(chk.seed * 7919 + 10, count, maxlen)
+    nan_check(chk)
     bad_prop, bad_corr = sweep(chk, seqs, "main")
     if bad_prop is None and (bad_corr is not None or not proof["ok"]):
         # something is off: look harder for an input on which the property itself fails
